@@ -43,6 +43,57 @@ PK = "liquid.builtin.loaders.package_loader.PackageLoader"
 PROBES = {"exists", "is_file", "is_dir", "resolve", "stat", "lstat", "is_symlink", "samefile"}
 
 
+def _splice_generator_helpers(repo, f0, node) -> None:
+    """``T = next(self._h(<names>), <default>)`` where ``_h`` is a private generator of the same
+    class: for the guard-before-join analysis the generator's body runs at that point — it is
+    spliced in place of the statement (parameters renamed to the argument names, ``yield E``
+    written ``T = E``).  Everything established before the call dominates the spliced body."""
+    import copy as _copy
+
+    if f0.cls is None:
+        return
+
+    class _Y(ast.NodeTransformer):
+        def __init__(self, target, ren):
+            self.target, self.ren = target, ren
+
+        def visit_Name(self, n):
+            if n.id in self.ren:
+                n.id = self.ren[n.id]
+            return n
+
+        def visit_Expr(self, n):
+            if isinstance(n.value, ast.Yield) and n.value.value is not None:
+                return ast.copy_location(ast.Assign(targets=[ast.Name(id=self.target, ctx=ast.Store())], value=self.visit(n.value.value), type_comment=None), n)
+            return self.generic_visit(n)
+
+    def splice(block: list) -> None:
+        i = 0
+        while i < len(block):
+            st = block[i]
+            for fld in ("body", "orelse", "finalbody"):
+                sub = getattr(st, fld, None)
+                if isinstance(sub, list) and sub and isinstance(sub[0], ast.stmt):
+                    splice(sub)
+            v = st.value if isinstance(st, ast.Assign) and len(st.targets) == 1 and isinstance(st.targets[0], ast.Name) else None
+            if isinstance(v, ast.Call) and is_name(v.func, "next") and v.args and isinstance(v.args[0], ast.Call) and isinstance(v.args[0].func, ast.Attribute) and is_name(v.args[0].func.value, "self"):
+                h = f0.cls.methods.get(v.args[0].func.attr)
+                call = v.args[0]
+                if h is not None and h.name.startswith("_") and any(isinstance(x, ast.Yield) for x in ast.walk(h.node)) and all(isinstance(a, ast.Name) for a in call.args) and not call.keywords:
+                    hp = [p for p in h.params() if p != "self"]
+                    if len(hp) == len(call.args):
+                        ren = {p: a.id for p, a in zip(hp, call.args)}
+                        body = [_Y(st.targets[0].id, ren).visit(_copy.deepcopy(x)) for x in h.node.body if not (isinstance(x, ast.Expr) and isinstance(x.value, ast.Constant))]
+                        init = ast.copy_location(ast.Assign(targets=[ast.Name(id=st.targets[0].id, ctx=ast.Store())], value=v.args[1] if len(v.args) > 1 else ast.Constant(value=None), type_comment=None), st)
+                        block[i : i + 1] = [init] + body
+                        for x in block[i : i + 1 + len(body)]:
+                            ast.fix_missing_locations(x)
+                        i += len(body)
+            i += 1
+
+    splice(node.body)
+
+
 def _check_resolver(repo, res, fq):
     from ..normalize import nfunc as _nfunc22
 
@@ -51,6 +102,7 @@ def _check_resolver(repo, res, fq):
     # hands back the path is read as part of the resolver)
     f = _nfunc22(repo, f0, aliases=False)
     node = f.node
+    _splice_generator_helpers(repo, f0, node)
     params = [p for p in f0.params() if p != "self"]
     if len(params) != 1:
         res.add("C22-GUARD", fq, "signature", f"{fq}: expected (self, template_name)", f.file, f.line)
@@ -189,13 +241,37 @@ def _check_resolver(repo, res, fq):
                 res.add("C22-TOTAL", fq, f"probe-unguarded:{callee_name(c)}", f"{fq}: `{text(c)[:50]}` can raise OSError (e.g. ENAMETOOLONG) and is not inside try/except OSError", f.file, c.lineno)
     res.ob(f"{fq}:fallthrough")
     last = node.body[-1]
-    if not (isinstance(last, ast.Raise) and "TemplateNotFoundError" in text(last)):
+    # (or, the same thing after the search: `if <candidate> is None: raise TemplateNotFoundError`
+    #  followed by the return of the candidate)
+    tail_ok = (
+        len(node.body) >= 2
+        and isinstance(last, ast.Return)
+        and isinstance(last.value, ast.Name)
+        and isinstance(node.body[-2], ast.If)
+        and text(node.body[-2].test) == f"{last.value.id} is None"
+        and node.body[-2].body
+        and isinstance(node.body[-2].body[-1], ast.Raise)
+        and "TemplateNotFoundError" in text(node.body[-2].body[-1])
+    )
+    if not tail_ok and not (isinstance(last, ast.Raise) and "TemplateNotFoundError" in text(last)):
         res.add("C22-TOTAL", fq, "fallthrough", f"{fq}: must end with raise TemplateNotFoundError when no search path has the file", f.file, f.line)
     # returns: only the joined candidate
     joined_vars = set()
     for st in walk_no_nested(node):
         if isinstance(st, ast.Assign) and isinstance(st.value, ast.Call) and callee_name(st.value) == "joinpath":
             joined_vars |= {t.id for t in st.targets if isinstance(t, ast.Name)}
+    # a name that only ever receives a joined candidate (or the None it starts with) is one
+    changed_j = True
+    while changed_j:
+        changed_j = False
+        by_name: dict = {}
+        for st in walk_no_nested(node):
+            if isinstance(st, ast.Assign) and len(st.targets) == 1 and isinstance(st.targets[0], ast.Name):
+                by_name.setdefault(st.targets[0].id, []).append(st.value)
+        for nm, vals in by_name.items():
+            if nm not in joined_vars and any(isinstance(v, ast.Name) and v.id in joined_vars for v in vals) and all((isinstance(v, ast.Name) and v.id in joined_vars) or (isinstance(v, ast.Constant) and v.value is None) for v in vals):
+                joined_vars.add(nm)
+                changed_j = True
     for st in walk_no_nested(node):
         if isinstance(st, ast.Return):
             res.ob(f"{fq}:return")
@@ -297,8 +373,19 @@ def run(repo: Repo) -> Result:
     mentions = any(isinstance(n, ast.Attribute) and is_self_attr(n, "reject_symlinks") for n in ast.walk(node))
     if not mentions:
         res.add("C22-SYMLINK", fs.qual, "no-branch", "resolve_path never consults self.reject_symlinks", fs.file, fs.line)
+    from ..guards import conditions as _conds22
+
+    cond_at = {id(st): cs for st, cs in _conds22(node)}
     for e in rets:
         cand = e.node.value.id
+        # the returned name may be a copy of the loop's candidate (`found = candidate` in the loop,
+        # `return found` after it): containment must then hold where the copy is made
+        copies = [st for st in walk_no_nested(node) if isinstance(st, ast.Assign) and len(st.targets) == 1 and is_name(st.targets[0], cand) and isinstance(st.value, ast.Name) and st.value.id in fs_joined and st.value.id != cand]
+        if copies:
+            for st in copies:
+                if not any(implies_contained(c, st.value.id) for c in cond_at.get(id(st), [])):
+                    res.add("C22-SYMLINK", fs.qual, "is_relative_to", f"with reject_symlinks the candidate `{st.value.id}` must be accepted only if candidate.resolve().is_relative_to(base.resolve())", fs.file, st.lineno)
+            continue
         if not any(implies_contained(c, cand) for c in e.conds):
             res.add("C22-SYMLINK", fs.qual, "is_relative_to", f"with reject_symlinks the candidate `{cand}` must be returned only if candidate.resolve().is_relative_to(base.resolve()) (conditions at the return: {e.canon})", fs.file, e.node.lineno)
 
@@ -318,6 +405,10 @@ def run(repo: Repo) -> Result:
                 continue
             res.ob(f"{c.qual}.{m}")
             resolver = "resolve_path" if f.cls.qual == FS else "_resolve_path"
+            from ..normalize import nfunc as _nf22r
+
+            # private read helpers (`self._read_source(path)`) inlined; the resolvers themselves stay calls
+            f = _nf22r(repo, f, keep=("resolve_path", "_resolve_path", "_read"), aliases=False)
             # names bound from the resolver
             safe = set()
             for st in walk_no_nested(f.node):
@@ -345,8 +436,9 @@ def run(repo: Repo) -> Result:
                 if nm == "run_in_executor" and len(call.args) >= 2:
                     target = call.args[1]
                     rest = call.args[2:]
-                    if is_self_attr(target, "_read") or (isinstance(target, ast.Attribute) and target.attr in READS):
-                        src = rest[0] if is_self_attr(target, "_read") and rest else (target.value if isinstance(target, ast.Attribute) else None)
+                    private_reader = isinstance(target, ast.Attribute) and is_name(target.value, "self") and target.attr.startswith("_read")
+                    if private_reader or (isinstance(target, ast.Attribute) and target.attr in READS):
+                        src = rest[0] if private_reader and rest else (target.value if isinstance(target, ast.Attribute) else None)
                         if not (isinstance(src, ast.Name) and src.id in safe):
                             res.add("C22-READ", f.qual, f"executor:{text(call)[:30]}", f"{f.qual}: `{text(call)[:60]}` reads a path that did not come from self.{resolver}", f.file, call.lineno)
             res.sample({"rule": "C22-READ", "function": f.qual, "resolved_vars": sorted(safe)})
